@@ -496,6 +496,22 @@ func (g *gen) xwidth(w int, wrap bool, n int) int {
 func (g *gen) widthPad(n int) int { return g.xwidth(g.width(), false, n) }
 func (g *gen) widthWrap() int     { return g.xwidth(g.width(), true, 0) }
 
+// FINDING D21 (open, reported): InsertDefinitionsTableOpts has the same wrap-around of its own
+// (operations.go `rightWidth := width - leftWidth - minBetween`, then Wrap(def, rightWidth-2)): for a
+// width within longestTerm+6 of math.MinInt the definition is not wrapped at all, while every other
+// negative width wraps it at the minimum width 2; Edit("").InsertDefinitionsTable(0,
+// [][2]string{{"a","b c d"}}, math.MinInt) returns "  a  - b c d\n", for -5 "  a  - b\n       c\n       d\n".
+// With the flag on, group A-deftable reports the divergence between the real code and the model
+// (16 cases in 3 rounds of C18 quick).  Switch it on when D21 is repaired.
+const deftableExtremeWidths = false
+
+func (g *gen) widthDefTable() int {
+	if deftableExtremeWidths {
+		return g.widthPad(40)
+	}
+	return g.width()
+}
+
 func (g *gen) charset() string {
 	switch g.r.Intn(9) {
 	case 8:
@@ -1469,7 +1485,7 @@ func (g *gen) groupDefTable(n int) {
 				defs[j][1] = g.word(mode, 3) + els + g.word(mode, 3) + ls + g.word(mode, 2)
 			}
 		}
-		g.emit("prog", g.editStep(t, edOpts)+";"+fmt.Sprintf("deftable,0,%s,%s,%d,%s", encInt(g.pos(clusterCount(t))), encDefs(defs), g.widthPad(40), arg))
+		g.emit("prog", g.editStep(t, edOpts)+";"+fmt.Sprintf("deftable,0,%s,%s,%d,%s", encInt(g.pos(clusterCount(t))), encDefs(defs), g.widthDefTable(), arg))
 	}
 }
 
@@ -1554,7 +1570,7 @@ func (g *gen) groupOptions2(n int) {
 			op = fmt.Sprintf("twocol,%%d,%s,%s,%s,%d,%d,%s,%%s", encInt(g.pos(4)), encText(g.para(mode, ls, 2)), encText(g.para(mode, ls, 2)), g.gap(), g.widthPad(40), encPct(g.pct()))
 		case 8:
 			defs := [][2]string{{g.word(mode, 4), g.line(mode, 5)}, {g.word(mode, 4), g.line(mode, 5)}}
-			op = fmt.Sprintf("deftable,%%d,%s,%s,%d,%%s", encInt(g.pos(4)), encDefs(defs), g.widthPad(40))
+			op = fmt.Sprintf("deftable,%%d,%s,%s,%d,%%s", encInt(g.pos(4)), encDefs(defs), g.widthDefTable())
 		default:
 			data := [][]string{{g.word(mode, 3), g.word(mode, 3)}, {g.word(mode, 3), g.word(mode, 3)}}
 			op = fmt.Sprintf("table,%%d,%s,%s,%d,%%s", encInt(g.pos(4)), encTable(data), g.widthPad(40))
@@ -2114,7 +2130,7 @@ func (g *gen) groupProgZ(n int) {
 			step = fmt.Sprintf("table,0,%s,%s,%d,%s", encInt(g.pos(4)), encTable(data[:1+g.r.Intn(4)]), g.widthPad(40), g.optsArg(o))
 		case 10:
 			defs := [][2]string{{g.word(mode, 4), g.line(mode, 5)}, {"", ""}}
-			step = fmt.Sprintf("deftable,0,%s,%s,%d,%s", encInt(g.pos(4)), encDefs(defs), g.widthPad(40), g.optsArg(o))
+			step = fmt.Sprintf("deftable,0,%s,%s,%d,%s", encInt(g.pos(4)), encDefs(defs), g.widthDefTable(), g.optsArg(o))
 		default:
 			step = fmt.Sprintf("indent,0,%d,%s", g.r.Intn(3), g.optsArg(o))
 		}
